@@ -65,6 +65,8 @@ class DisjointAutomaton(Automaton):
     def label(self, ev: Event) -> Optional[str]:
         if ev.kind in ("store", "del") and ev.term[0] == "s" and self._which(ev.term[1]) is not None:
             return "%s %s[k]" % (ev.kind, "connected" if self._which(ev.term[1]) == 0 else "disconnected")
+        if ev.kind == "call" and ev.parts is not None and ev.parts[0][0] == "a" and ev.parts[0][2] == "pop" and self._which(ev.parts[0][1]) is not None:
+            return "pop %s[k]" % ("connected" if self._which(ev.parts[0][1]) == 0 else "disconnected")
         return None
 
     def on_event(self, state: State, ev: Event) -> Iterable[State]:
@@ -74,6 +76,14 @@ class DisjointAutomaton(Automaton):
                 self.keys.add(ev.term[2])
                 l = list(state)
                 l[w] = ev.kind == "store"
+                return [tuple(l)]
+        if ev.kind == "call" and ev.parts is not None and ev.parts[0][0] == "a" and ev.parts[0][2] == "pop" and ev.term[2]:
+            w = self._which(ev.parts[0][1])
+            if w is not None:
+                # map.pop(k[, default]) removes k (with a default it is `if k in map: del map[k]`)
+                self.keys.add(ev.term[2][0])
+                l = list(state)
+                l[w] = False
                 return [tuple(l)]
         if ev.kind == "call" and ev.parts is not None:
             # a call that can reach another writer of the maps re-establishes (only) the invariant
@@ -301,6 +311,10 @@ def r19_7(ck: Check) -> None:
     from .common import rule_ctor_identity
     rule_ctor_identity(ck, "R19.7", RPQ + "RemotePeer", ["host", "port", "direction", "last_connection_attempt", "ban_score"])
     for cls in (DRP, CRP):
+        init = ck.repo.find_method(cls, "__init__")
+        if init is not None and init.qualname == RPQ + "RemotePeer.__init__":
+            ck.ok("R19.7", "%s inherits RemotePeer.__init__" % short(cls), "", init.loc)
+            continue
         s = ck.summ(cls + ".__init__", 0)
         sup = [e for e in s.events if e.kind == "call" and e.parts and e.parts[0][0] == "a" and e.parts[0][2] == "__init__"]
         want = tuple(("v", a) for a in ("host", "port", "direction", "last_connection_attempt", "ban_score"))
